@@ -15,12 +15,12 @@ RULE = (
     "non-trivial = every case; distinct = canonical graph + flags / producer + argument"
 )
 BUDGET = {
-    "quick": {"workers": 16, "cases": 150, "secs": 45, "min_cases": 1200},
-    "thorough": {"workers": 16, "rounds": 4, "cases": 600, "secs": 240, "min_cases": 12000},
+    "quick": {"workers": 16, "cases": 1200, "secs": 60, "min_cases": 9600},
+    "thorough": {"workers": 16, "rounds": 4, "cases": 3200, "secs": 420, "min_cases": 102400},
 }
 ANCHORS = ["utils:lint"]
 
-CORRUPTIONS = ["no_type", "bad_type", "fanin_on_source", "second_driver", "bbout_second_load", "bbout_nonbuf_load", "dotted_name", "pin_deleted", "pin_retyped", "undriven_gate", "unloaded_node", "single_input", "fanin_on_x", "fanin_on_bbout", "undriven_pin"]
+CORRUPTIONS = ["no_type", "bad_type", "fanin_on_source", "second_driver", "bbout_second_load", "bbout_nonbuf_load", "dotted_name", "pin_deleted", "pin_retyped", "undriven_gate", "unloaded_node", "single_input", "fanin_on_x", "fanin_on_bbout", "undriven_pin", "pin_direction_swapped"]
 PRODUCERS = ["verilog", "fast_verilog", "bench", "adder", "mux", "popcount", "add_subcircuit", "fill_blackbox", "limit_fanin", "limit_fanout", "ternary", "acyclic_unroll", "insert_registers", "unroll", "sequential_unroll", "sensitization_transform", "sensitivity_transform", "miter_tied", "copy", "relabel", "strip_blackboxes_then_nothing", "supergates", "remove_unloaded"]
 
 
@@ -53,8 +53,25 @@ def gen(rng, ctx):
     else:
         ni = rng.randint(1, 4)
         case["c"] = G.rand_circuit(rng, ni, rng.randint(2, 8), max_fanin=5, p_wide=0.3, p_const=0.15)
-        if prod in ("limit_fanin", "limit_fanout", "copy", "relabel", "remove_unloaded") and rng.random() < 0.4:
+        if prod in ("limit_fanin", "limit_fanout", "copy", "relabel") and rng.random() < 0.4:
             case["c"] = G.add_blackboxes(rng, case["c"], 1)
+        if prod == "remove_unloaded":
+            cd = G.add_blackboxes(rng, G.rand_circuit(rng, ni, rng.randint(2, 6), max_fanin=3), rng.randint(1, 2))
+            k = 0
+            for n, t, o in list(cd["nodes"]):
+                if n.endswith("_w") and rng.random() < 0.7:
+                    # the net driven by a blackbox output now feeds only dead logic
+                    for x in cd["nodes"]:
+                        if x[0] == n:
+                            x[2] = False
+                    cd["edges"] = [e for e in cd["edges"] if e[0] != n]
+                    cd["nodes"].append([f"dz{k}", rng.choice(["not", "buf", "and"]), False])
+                    cd["edges"].append([n, f"dz{k}"])
+                    if rng.random() < 0.5:
+                        cd["nodes"].append([f"dy{k}", "nor", False])
+                        cd["edges"] += [[f"dz{k}", f"dy{k}"], [rng.choice([m for m, tt, _ in cd["nodes"] if tt == "input"]), f"dy{k}"]]
+                    k += 1
+            case["c"] = cd
         if prod == "acyclic_unroll" and rng.random() < 0.6:
             case["c"] = G.add_cycles(rng, case["c"], rng.randint(1, 2))
         if prod == "sequential_unroll" or prod == "strip_blackboxes_then_nothing":
@@ -74,7 +91,7 @@ def corrupt(cg, c, cors):
         ty = {n: g.nodes[n].get("type") for n in nodes}
         pick = lambda pred: (lambda l: rng.choice(l) if l else None)([n for n in nodes if pred(n)])
         if kind == "no_type":
-            n = pick(lambda n: True)
+            n = pick(lambda n: "type" in g.nodes[n])
             if n:
                 del g.nodes[n]["type"]
                 applied.append(kind)
@@ -127,6 +144,12 @@ def corrupt(cg, c, cors):
             if n:
                 g.nodes[n]["type"] = "buf"
                 g.nodes[n]["output"] = True
+                applied.append(kind)
+        elif kind == "pin_direction_swapped":
+            # an input pin typed bb_output (only when undriven, so that no other rule fires) or an output pin typed bb_input
+            n = pick(lambda n: (ty[n] == "bb_input" and g.in_degree(n) == 0) or ty[n] == "bb_output")
+            if n:
+                g.nodes[n]["type"] = "bb_output" if ty[n] == "bb_input" else "bb_input"
                 applied.append(kind)
         elif kind == "undriven_gate":
             n = pick(lambda n: ty[n] in G.ALL_GATES and g.in_degree(n) >= 1)
